@@ -1014,7 +1014,9 @@ def hkey(h):
 # ------------------------------------------------------------------ the exhaustive scalar loop
 
 SCALAR_PRELUDE = r"""
-(import (scheme base) (scheme write))
+(import (scheme base) (scheme write) (scheme read))
+;; the datum "\x<hex>;" and |\x<hex>;| read back through (scheme read): one character with that scalar value
+(define (esc-text cp open close) (string-append open "\\x" (number->string cp 16) ";" close))
 (define (enc cp)
   (cond ((< cp 128) (list cp))
         ((< cp 2048) (list (+ 192 (quotient cp 64)) (+ 128 (remainder cp 64))))
@@ -1047,6 +1049,10 @@ SCALAR_PRELUDE = r"""
              (equal? (map char->integer (string->list m)) (list cp cp))
              (equal? (bv->list (string->utf8 r)) (append want want)) (= (string-length r) 2)
              (eqv? pk c) (eqv? r1 c) (eqv? r2 c) (eof-object? r3)
+             (let ((lit (read (open-input-string (esc-text cp "\"" "\"")))))
+               (and (string? lit) (= (string-length lit) 1) (equal? (bv->list (string->utf8 lit)) want)))
+             (let ((sym (read (open-input-string (esc-text cp "|" "|")))))
+               (and (symbol? sym) (equal? (bv->list (string->utf8 (symbol->string sym))) want)))
              bl)))))
 (define (block lo hi)
   (let lp ((cp lo) (h 0) (n 0) (bad 0))
